@@ -92,7 +92,10 @@ pub fn make_config(s: &Setup, w: &W) -> Config {
             arch: "sim64".into(),
         },
         service_url: s.service_url.clone(),
-        omaha_public_keys: lock(w).cup.as_ref().map(|k| k.public_keys()),
+        omaha_public_keys: {
+            let g = lock(w);
+            g.client_keys.clone().or_else(|| g.cup.as_ref().filter(|k| !k.keys.is_empty()).map(|k| k.public_keys()))
+        },
     }
 }
 
